@@ -29,6 +29,9 @@ def obligations(tier):
            "sodium/utils.c", "crypto_verify/verify.c"]
     for part, nm in ((0, "validate-add-sub"), (1, "scalarmult"), (2, "from-hash-random-scalars")):
         obs.append(Ob("ristretto-" + nm, "C07/ristretto.c", units=RIS, stubs=STUBS, defs={"PART": part}, unwind=70, timeout=900, family="ristretto255-drivers",
+                      # a counterexample is an abstract-group scenario (a valid encoding with a chosen scalar); native bytes that
+                      # decode are not what the solver picks, so the replay re-decides the obligation (model level), as in C06
+                      replay="model",
                       desc="crypto_core_ristretto255 / crypto_scalarmult_ristretto255 drivers == spec over the abstract group with an abstract Ristretto encoding layer",
                       bounds="all input bytes"))
     return obs
